@@ -3,7 +3,7 @@ ALL = ["C%02d" % i for i in range(1, 37)]
 
 BASELINE_OFF = ("cd /repo && GOFLAGS=-mod=mod GOPROXY=off GOSUMDB=off GOTOOLCHAIN=local "
                 "go test -json -vet=off -count=1 -timeout 25m ./...")
-HOOK_COMMITS = ["d9bd3981", "91affb0d", "895625aa", "a0f266b2", "acb6a1da", "2c5176d9", "91558341", "756b8833"]
+HOOK_COMMITS = ["d9bd3981", "91affb0d", "895625aa", "a0f266b2", "acb6a1da", "2c5176d9", "91558341", "756b8833", "9339bb51"]
 
 NOTES = ("Every check: TLC design check of the TLA+ module, then TLC-generated behaviours replayed against /repo's "
          "working tree (harness rebuilt on every run with -tags verif) and/or recorded traces validated by TLC. "
